@@ -14,6 +14,7 @@ mod c09;
 mod c13;
 mod c14;
 mod c16;
+mod c17;
 mod c12;
 mod c18;
 mod memclient;
@@ -64,6 +65,7 @@ fn run(name: &str, args: &Value) -> Value {
         "c05_close_in_array" => c05::close_in_array(args),
         "c05_drop_full_queue" => c05::drop_full_queue(args),
         "c13_registry" => c13::registry(args),
+        "c17_roundtrip" => c17::roundtrip(args),
         "c16_sequence" => c16::sequence(args),
         "c16_whole" => c16::whole(args),
         "c14_ports" => c14::ports(args),
